@@ -1,6 +1,10 @@
 (* C15 — the trace maps every atom, bond and ring digit to its exact cursor. Statements only. *)
 From Coq Require Import List NArith Bool.
-Require Import P.Model.Base P.Model.Token P.Model.Reader P.Model.Trace P.Proofs.TraceCursors.
+Import ListNotations.
+Require Import P.Generated.Enums P.Model.Base P.Model.Token P.Model.Reader P.Model.Trace P.Proofs.TraceCursors P.Proofs.TraceRings.
+Strategy opaque [P.Generated.Trees.tree_symbol P.Generated.Trees.tree_organic P.Generated.Trees.tree_configuration
+  P.Generated.Trees.tree_charge P.Generated.Trees.tree_bond P.Generated.Trees.tree_rnum P.Generated.Trees.tree_hcount
+  P.Generated.Trees.tree_isotope P.Generated.Trees.tree_map].
 
 (* every range and bond cursor the reader hands to the trace is anchored in the input: re-reading the input at the
    start of an atom / ring-token range gives that kind / number and consumes exactly the range; the bond cursor is
@@ -30,6 +34,60 @@ Theorem C15_tree_bond_cursor_both_directions : forall h1 bk k bc a b h2 t1 t2 t,
     (never_reclosed t2 h2 sid tid -> trace_bond t sid tid = Some bc /\ trace_bond t tid sid = Some bc).
 Proof. exact extend_bond_stored. Qed.
 
+
+(* ---- ring closures: the two directions report their own ends ---- *)
+(* ring number r is open exactly after an odd number of ring tokens r *)
+Theorem C15_ring_open_iff_odd : forall h t r, tfold trace0 h = Some t -> (oget (t_opens t) r = None <-> jpar r h = false).
+Proof. exact open_iff_odd. Qed.
+
+(* an opening token r (r not open after h1) and its matching closing token (no token r in between), read with stack heads
+   sid1 and sid2: (sid1,sid2) maps to the cursor of the OPENING end and (sid2,sid1) to the cursor of the CLOSING end,
+   unless a later closure joins the same two atoms again; the two ring tokens are stored in order *)
+Theorem C15_ring_bond_cursor_each_direction : forall h1 hmid h2 bk1 bk2 r bc1 a1 b1 bc2 a2 b2 t1 t,
+  tfold trace0 h1 = Some t1 -> oget (t_opens t1) r = None -> Forall (not_join r) hmid ->
+  tfold trace0 (h1 ++ RJoin bk1 r bc1 a1 b1 :: hmid ++ RJoin bk2 r bc2 a2 b2 :: h2) = Some t ->
+  exists sid1 sid2 t2 t3,
+    hd_error (t_stack t1) = Some sid1 /\
+    tfold trace0 (h1 ++ RJoin bk1 r bc1 a1 b1 :: hmid) = Some t2 /\ hd_error (t_stack t2) = Some sid2 /\
+    tstep t2 (RJoin bk2 r bc2 a2 b2) = Some t3 /\
+    sid1 < length (atom_ranges h1) /\ sid2 < length (atom_ranges (h1 ++ RJoin bk1 r bc1 a1 b1 :: hmid)) /\
+    trace_rnum t (length (rnum_ranges h1)) = Some (a1, b1) /\
+    trace_rnum t (length (rnum_ranges (h1 ++ RJoin bk1 r bc1 a1 b1 :: hmid))) = Some (a2, b2) /\
+    (never_reclosed t3 h2 sid1 sid2 ->
+       trace_bond t sid1 sid2 = Some bc1 /\ (sid1 <> sid2 -> trace_bond t sid2 sid1 = Some bc2)).
+Proof. exact ring_bond_stored. Qed.
+
+(* on the events of an input string: each of the two cursors is the bond symbol written before that end's ring token,
+   else the first character of that ring token *)
+Theorem C15_ring_bond_cursors_in_the_input : forall s t h1 bk1 r bc1 a1 b1 hmid bk2 bc2 a2 b2 h2,
+  tfold trace0 (r_events (read s)) = Some t ->
+  r_events (read s) = h1 ++ RJoin bk1 r bc1 a1 b1 :: hmid ++ RJoin bk2 r bc2 a2 b2 :: h2 ->
+  jpar r h1 = false -> Forall (not_join r) hmid ->
+  exists t1 sid1 sid2 t2 t3,
+    tfold trace0 h1 = Some t1 /\ hd_error (t_stack t1) = Some sid1 /\
+    tfold trace0 (h1 ++ RJoin bk1 r bc1 a1 b1 :: hmid) = Some t2 /\ hd_error (t_stack t2) = Some sid2 /\
+    tstep t2 (RJoin bk2 r bc2 a2 b2) = Some t3 /\
+    sid1 < length (atom_ranges h1) /\ sid2 < length (atom_ranges (h1 ++ RJoin bk1 r bc1 a1 b1 :: hmid)) /\
+    trace_rnum t (length (rnum_ranges h1)) = Some (a1, b1) /\
+    trace_rnum t (length (rnum_ranges (h1 ++ RJoin bk1 r bc1 a1 b1 :: hmid))) = Some (a2, b2) /\
+    ring_end_anchored s bk1 r bc1 a1 b1 /\ ring_end_anchored s bk2 r bc2 a2 b2 /\
+    (never_reclosed t3 h2 sid1 sid2 ->
+       trace_bond t sid1 sid2 = Some (if bondk_eqb bk1 BK_Elided then a1 else a1 - 1) /\
+       (sid1 <> sid2 -> trace_bond t sid2 sid1 = Some (if bondk_eqb bk2 BK_Elided then a2 else a2 - 1))).
+Proof. exact reader_ring_bond_cursors. Qed.
+
+(* no bond event between x and y, or an id past the last atom: no entry *)
+Theorem C15_unlinked_pair_maps_to_nothing : forall h t x y, tfold trace0 h = Some t -> never_linked trace0 h x y -> trace_bond t x y = None.
+Proof. exact unlinked_bond_none. Qed.
+Theorem C15_bond_ids_past_the_end_map_to_nothing : forall h t x y, tfold trace0 h = Some t ->
+  length (atom_ranges h) <= x \/ length (atom_ranges h) <= y -> trace_bond t x y = None.
+Proof. exact trace_bond_past. Qed.
+(* a pop changes no atom / bond / ring-token entry *)
+Theorem C15_pop_changes_no_entry : forall t d t', tstep t (RPop d) = Some t' ->
+  (forall x y, trace_bond t' x y = trace_bond t x y) /\ (forall i, trace_atom t' i = trace_atom t i) /\
+  (forall i, trace_rnum t' i = trace_rnum t i).
+Proof. exact pop_changes_no_entry. Qed.
+
 Print Assumptions C15_reader_cursors_are_anchored.
 Print Assumptions C15_trace_total_on_reader_streams.
 Print Assumptions C15_trace_stores_ranges_in_order.
@@ -37,3 +95,9 @@ Print Assumptions C15_ids_past_the_end_map_to_nothing.
 Print Assumptions C15_atom_range_slices_to_its_token.
 Print Assumptions C15_rnum_range_slices_to_its_token.
 Print Assumptions C15_tree_bond_cursor_both_directions.
+Print Assumptions C15_ring_open_iff_odd.
+Print Assumptions C15_ring_bond_cursor_each_direction.
+Print Assumptions C15_ring_bond_cursors_in_the_input.
+Print Assumptions C15_unlinked_pair_maps_to_nothing.
+Print Assumptions C15_bond_ids_past_the_end_map_to_nothing.
+Print Assumptions C15_pop_changes_no_entry.
